@@ -1,4 +1,6 @@
 import Proofs.Store.MultiDisk
+import Proofs.Store.HashBinding
+import Proofs.Codec.AminoCommitInfo
 /-!
 # C04 — Saved state is reproduced exactly after reopening from disk
 
@@ -142,6 +144,22 @@ theorem hash_deterministic (H : Bytes → Bytes) (t₁ t₂ : MTree) (h : t₁.r
   rw [key t₁ r₁ h1, key t₂ r₂ h2, h]
   exact ⟨rfl, rfl⟩
 
+/-- **Root hashes bind the state** (the converse of determinism, and the reason a root-hash comparison
+between replicas means something): two well-formed IAVL trees with the same root hash are the same
+tree — same shape, keys, values and versions — unless `H` collides (the colliding pair is exhibited). -/
+theorem hash_binding (H : Bytes → Bytes) (hH : HashOK H) (a b : Tree) (ha : a.WF) (hb : b.WF)
+    (ka : a.KeyOK) (kb : b.KeyOK) (h : hashTree H a = hashTree H b) : a = b ∨ Collision H :=
+  hashTree_inj hH a b ha hb ka kb h
+
+/-- The `s/<version>` record round-trips through amino (`setCommitInfo` / `getCommitInfo`) for every
+commit info with non-negative `int64` versions and representable lengths. -/
+theorem commitinfo_roundtrip (ci : CInfo) (h : ci.WF) : decCommitInfo (encCommitInfo ci) = some ci :=
+  decCommitInfo_enc ci h
+
+/-- The `s/latest` record round-trips. -/
+theorem latest_roundtrip (v : Int) (h0 : 0 ≤ v) (h1 : v < 2 ^ 63) : decLatest (encLatest v) = some v :=
+  decLatest_enc v h0 h1
+
 /-- **The whole multistore reopens exactly.**  For every legal block history on a fresh DB (any
 iteration orders): a new `rootmulti.Store` object on the resulting disk — `LoadLatestVersion` or
 `LoadVersion(v)` for any committed `v` — reports the commit id the live store reported when it
@@ -230,5 +248,16 @@ example : GoodSteps (fun s => s ∈ [l1, l2, t2]) 0 none [some l1, some t2] := b
   refine ⟨⟨?_, ?_, ?_, ?_⟩, ⟨?_, ?_, ?_, ?_⟩, trivial⟩ <;>
     simp [subtreesOpt, Tree.subtrees, l1, l2, t2, Tree.version, Tree.WF, Tree.height, isInt8, isInt64]
 example : saveVersion id ((MTree.new {}).setRoot (some l1)) ≠ none := by decide
+
+private def ciEx : CInfo := ⟨2, [⟨[97, 98], ⟨2, [1, 2, 3]⟩⟩, ⟨[97], ⟨0, []⟩⟩]⟩
+example : ciEx.WF := by
+  refine ⟨by decide, by decide, ?_, by decide⟩
+  intro si hsi
+  simp only [ciEx, List.mem_cons, List.mem_nil_iff, or_false] at hsi
+  rcases hsi with rfl | rfl <;> constructor <;> decide
+example : encCommitInfo ciEx = [0x18, 0x08, 0x02, 0x12, 0x0f, 0x0a, 0x02, 97, 98, 0x12, 0x09, 0x0a, 0x07, 0x08, 0x02, 0x12, 0x03, 1, 2, 3,
+                                0x12, 0x03, 0x0a, 0x01, 97] := by decide
+example : t2.WF ∧ t2.KeyOK := by
+  constructor <;> simp [t2, l1, l2, Tree.WF, Tree.KeyOK, Tree.minKey, Tree.height, isInt8, isInt64]
 
 end C04
